@@ -47,7 +47,7 @@ func (m MultiLin) fold(api frontend.API, at frontend.Variable) {
 	one := m[len(m)/2:]
 	for j := range zero {
 		diff := api.Sub(one[j], zero[j])
-		zero[j] = api.MulAcc(zero[j], diff, at)
+		zero[j] = api.Add(zero[j], api.Mul(diff, at))
 	}
 }
 
@@ -59,7 +59,7 @@ func (m MultiLin) foldScaled(api frontend.API, at frontend.Variable) (denom fron
 	zero := m[:len(m)/2]
 	one := m[len(m)/2:]
 	for j := range zero {
-		zero[j] = api.MulAcc(zero[j], one[j], coeff)
+		zero[j] = api.Add(zero[j], api.Mul(one[j], coeff))
 	}
 	return
 }
